@@ -1474,6 +1474,15 @@ class Interp:
                     raise Unsupported(f"equality of a text and {type(b if getattr(a, 'is_text', False) else a).__name__}")
                 return False
             return text_eq(a, b)
+        for x, y in ((a, b), (b, a)):
+            # a character of a modelled str compared with a str literal: equal exactly when the literal is that one
+            # character -- the individual chr(ord(literal)) of the width model (CPython: str == str by content)
+            if isinstance(x, SOpaque) and x.kind == "Char" and isinstance(y, str):
+                if len(y) != 1:
+                    return False
+                from .text import chr_of
+
+                return x == chr_of(ord(y))
         if isinstance(a, SOpaque) and isinstance(b, SOpaque) and a.kind == b.kind:
             # `==` of two individuals of a kind whose protocol declares its own equality (`py_eq(st, a, b)`: an
             # equivalence that contains identity, e.g. bound methods of the same function and object are equal
